@@ -16,6 +16,7 @@ PROPS = {
             ['len(m) == len(bytes())', 'P'],
             ['from_bytes(m.bytes()|m.bin(), time=m.time) == m', 'P'],
             ['from_hex(m.hex(sep)) == m', 'B'],
+            ['the list bytes() returns is new on every call and owned by the caller', 'P'],
         ],
         assumptions=[],
         trusted_base=[],
